@@ -9,11 +9,33 @@ from .engine import lit_seq, _ids
 def ext_call(eng, st, name, args, kwargs, node):
     d = lambda v: eng.deref(st, v)
     if name in ("io.BytesIO", "io:BytesIO"):
-        data = d(args[0]) if args else lit_seq(b"", "bytes")
+        data = eng.as_iseq(st, args[0], node) if args else lit_seq(b"", "bytes")
         ident = f"file!bytesio!{next(_ids)}"
         st.heap[ident] = {"__kind__": "file", "content": VSeq(data.t, "bytes"), "pos": VInt(0), "fkind": "bytesio"}
         eng.fr.assumed_used.add("io.BytesIO (file model)")
         return [(st, VRef(ident, "file"))]
+    if name == "Crypto.Cipher:AES.new":
+        key = eng.as_iseq(st, args[0], node)
+        iv = kwargs.get("iv", args[2] if len(args) > 2 else None)
+        iv = eng.as_iseq(st, iv, node)
+        klen = IS.len(key.t)
+        eng.implicit_error(st, z3.And(z3.Or(klen == 16, klen == 24, klen == 32), IS.len(iv.t) == 16), "ValueError", node,
+                           "AES.new-key-or-iv-length")
+        eng.fr.assumed_used.add("AES-CBC (pycryptodome): uninterpreted, length preserving, decrypt inverts encrypt on "
+                                "block-aligned data, ValueError on unaligned data / bad key or IV length")
+        return [(st, VConst(("aes", key, iv), "aescipher"))]
+    if name == "hmac.new":
+        key = eng.as_iseq(st, args[0], node)
+        msg = eng.as_iseq(st, args[1], node)
+        dg = d(args[2]) if len(args) > 2 else kwargs.get("digestmod")
+        if not (isinstance(dg, VSeq) and dg.py == "sha256"):
+            raise Unsupported("hmac digest other than sha256")
+        eng.fr.assumed_used.add("HMAC-SHA256: uninterpreted function of (key, message), 32 bytes")
+        return [(st, VConst(("hmac", key, msg), "hashobj"))]
+    if name == "hashlib.sha256":
+        data = eng.as_iseq(st, args[0], node)
+        eng.fr.assumed_used.add("SHA-256: uninterpreted function, 32 bytes")
+        return [(st, VConst(("sha256", data), "hashobj"))]
     if name in ("re.match", "re.fullmatch"):
         pat = d(args[0])
         subj = d(args[1])
